@@ -353,6 +353,11 @@ def enumerate_cases(tier, seed):
     cases += s3.omit_backbone_cases("AMBER")
     cases += s3.omit_pair_cases("AMBER", all_pairs=(tier != "quick"))
     cases += s3.omit_h_cases("PARSE")
+    # the same without debumping: nothing refreshes the bond lists between
+    # reading the hydrogens and adding the missing one
+    cases += s3.omit_h_cases("PARSE", names=["ALA", "GLY", "SER", "LYS",
+                                             "PRO", "HIS", "THR"],
+                             opts=("nodebump", "nodebump_noopt"))
     cases += s3.neutral_cases()
     cases += s3.multi_clash_cases("AMBER", all_pairs=(tier != "quick"))
     cases += s3.gap_cases("AMBER", ("default", "noopt"))
